@@ -648,8 +648,10 @@ func patTerm(e ast.Expr) *Term {
 				return &Term{K: "fact", S: f.Name, A: args}
 			}
 			switch f.Name {
-			case "ret", "backedge", "go":
+			case "ret", "backedge":
 				return mk(f.Name, "", args...)
+			case "gostmt":
+				return mk("go", "", args...)
 			case "store":
 				return &Term{K: "store", S: "", A: args}
 			case "res": // res(i, call)
